@@ -60,6 +60,16 @@ func (w *world) lcdc(v uint8) bool {
 	return w.check(fmt.Sprintf("right after LCDC<-%02X", v))
 }
 
+// other stores to a video register that plays no part in the line/mode schedule (STAT, LY,
+// LYC, scroll, window, palettes): LY and the mode must go on as if nothing had been stored.
+func (w *world) other(a uint16, v uint8) bool {
+	w.m.Mem.Write(a, v)
+	w.log(fmt.Sprintf("%04X<-%02X", a, v))
+	w.c.Count("other_register_writes", 1)
+	// judged after the machine cycle the store belongs to (a guest cannot read in between)
+	return true
+}
+
 func (w *world) tick() bool {
 	w.m.PPU.EndMachineCycle()
 	w.t++
@@ -76,7 +86,7 @@ func (w *world) tick() bool {
 }
 
 func run(c *rig.Ctx) {
-	c.Require("cycles", "cycles_off", "first_line_cycles", "switch_offs", "switch_ons", "redundant_writes", "cells_visited")
+	c.Require("cycles", "cycles_off", "first_line_cycles", "switch_offs", "switch_ons", "redundant_writes", "cells_visited", "other_register_writes")
 	var seen [lcdref.Lines][lcdref.LineLen]bool
 	worlds := 0
 	newWorld := func() *world {
@@ -196,6 +206,12 @@ func run(c *rig.Ctx) {
 				}
 				if next == w.t {
 					continue
+				}
+			}
+			if i%2 == 1 && r.Chance(1, 500) {
+				a := r.Pick16([]uint16{0xff41, 0xff41, 0xff44, 0xff44, 0xff45, 0xff42, 0xff43, 0xff4a, 0xff4b, 0xff47, 0xff48, 0xff49})
+				if !w.other(a, r.U8()) {
+					return
 				}
 			}
 			if !w.tick() {
